@@ -25,6 +25,11 @@ type Lexer struct {
 	tokenPool    *token.Pool
 	positionPool *position.Pool
 	newLines     NewLines
+
+	// escPos is the offset isEscaped answered last (0 = none yet); escRes is
+	// that answer. They make the scan over a long backslash run linear.
+	escPos int
+	escRes bool
 }
 
 func NewLexer(data []byte, config conf.Config) *Lexer {
@@ -73,13 +78,31 @@ func (lex *Lexer) addFreeFloatingToken(t *token.Token, id token.ID, ps, pe int) 
 
 // isEscaped reports whether the byte at p is escaped, i.e. directly preceded
 // by an odd number of backslashes (a backslash escapes exactly the next byte).
+// The scanner asks for consecutive offsets, so the answer for p-1 is reused:
+// counting the whole run again for every byte of it is quadratic in its length.
 func (lex *Lexer) isEscaped(p int) bool {
-	n := 0
-	for i := p - 1; i >= 0 && lex.data[i] == '\\'; i-- {
-		n++
+	if p == 0 || lex.data[p-1] != '\\' {
+		return false
 	}
 
-	return n%2 == 1
+	var res bool
+	switch {
+	case lex.escPos == p:
+		return lex.escRes
+	case lex.escPos == p-1:
+		// data[p-1] is a backslash: it escapes p unless it is escaped itself
+		res = !lex.escRes
+	default:
+		n := 0
+		for i := p - 1; i >= 0 && lex.data[i] == '\\'; i-- {
+			n++
+		}
+		res = n%2 == 1
+	}
+
+	lex.escPos, lex.escRes = p, res
+
+	return res
 }
 
 func (lex *Lexer) isNotStringVar() bool {
